@@ -19,7 +19,7 @@ from typing import Dict, List
 from core import Case
 
 PID = "C15"
-LEAN_MODULES = ["KrroodVerif.Props.C15"]
+LEAN_MODULES = ["KrroodVerif.Props.C15", "KrroodVerif.Props.C15Rules"]
 THEOREMS = [
     "KrroodVerif.PD.C15_sound",
     "KrroodVerif.PD.C15_closed",
@@ -34,6 +34,14 @@ THEOREMS = [
     "KrroodVerif.PD.C15_cex_falsy_not_recorded",
     "KrroodVerif.PD.run_eq_closure",
     "KrroodVerif.PD.schema_UClosed",
+    # second tie: the inference rules as a table regenerated from the Python AST (Props/C15Rules.lean)
+    "KrroodVerif.PD.addFact_eq_interp",
+    "KrroodVerif.PD.schemaSem_toRules",
+    "KrroodVerif.PD.runGen_eq_closure",
+    "KrroodVerif.PD.C15_rules_closure",
+    "KrroodVerif.PD.C15_rules_order_independent",
+    "KrroodVerif.PD.C15_rules_agree_with_model",
+    "KrroodVerif.PD.C15_rules_cex_skip_inferred",
 ]
 MODEL_FUNCTION = ("PD.addFact / PD.addCore / PD.uRule / PD.updateValue / PD.step / PD.runModel "
                   "(Model/Descriptor.lean); specification PD.closure = PD.Derivable (C15_spec_exec)")
@@ -44,6 +52,8 @@ TRUSTED = [
     "MonitoredSet.add / _add_item",
     "the numeric encoding of the declared semantics, computed from the real descriptor classes on every run "
     "(issubclass, get_inverse(), TransitiveProperty, Role) by harness/props/_pd.py",
+    "second tie: harness/translate/c15_translate.py (Python AST -> rule table; strict, normalising) - trusted to read the "
+    "statement shapes it accepts correctly; the contents of super_relations / inverse_domain_and_field stay hand-modelled",
     "this correspondence harness (random histories + permutations through the real API in isolated worker "
     "processes) and the S-expression driver",
 ]
@@ -72,8 +82,50 @@ ASSUMPTIONS = [
 RULE = ("random well-typed histories (1..8 assertions quick, ..12 thorough) of single-valued assignment, append/add,"
         " container assignment (collection or bare element) over schemas U and D with 5..11 objects incl. role "
         "takers, self loops, cycles and diamonds in transitive relations; each history also in reversed and random "
-        "permuted order; non-trivial = at least two relations were inferred beyond the asserted ones; distinct by "
+        "permuted order; instances created by ONE constructor call that assigns several managed fields (also stated "
+        "by plain writes afterwards, and with the calls first); non-trivial = at least two relations were inferred beyond the asserted ones; distinct by "
         "case text")
+
+
+def extra_obligations():
+    """Second tie, by translation: regenerate the rule table (`Translated.rules`, `Translated.proc`) from the CURRENT
+    source of property_descriptor_relation.py / property_descriptor.py and have the kernel re-check (1) that it is the
+    table the hand-written model transcribes (`addFact_eq_interp` then says the interpreter on it IS `addFact`),
+    (2) that it satisfies `RulesOk`, hence (3) — generic theorem `C15_rules_order_independent`, proved once — that
+    the procedure the source describes is order independent. A rejected or changed translation is not by itself a
+    violation: core.py then searches for a concrete failing input."""
+    import os
+    import subprocess
+    import core
+    from translate.c15_translate import OBLIGATIONS as names, TranslationError, generate as gen
+    try:
+        text = gen(core.REPO)
+    except (TranslationError, SyntaxError, OSError) as e:
+        return [{"name": n, "ok": False, "detail": f"translator rejected the source: {e}"} for n in names]
+    tmp = core.LEAN_DIR / ".lake" / "audit"
+    tmp.mkdir(parents=True, exist_ok=True)
+    f = tmp / f"C15Translated_{os.getpid()}.lean"
+    f.write_text(text + "".join(f"#print axioms {n}\n" for n in names))
+    try:
+        p = subprocess.run(["lake", "env", "lean", str(f)], cwd=str(core.LEAN_DIR), capture_output=True, text=True,
+                           timeout=600)
+    finally:
+        try:
+            f.unlink()
+        except OSError:
+            pass
+    out = " ".join(((p.stdout or "") + (p.stderr or "")).split())
+    table = text.split("def proc")[0].split("def rules", 1)[-1]
+    res = []
+    for n in names:
+        m = re.search(r"'" + re.escape(n) + r"' depends on axioms: \[([^\]]*)\]", out)
+        none = re.search(r"'" + re.escape(n) + r"' does not depend on any axioms", out)
+        ax = [a.strip() for a in m.group(1).split(",")] if m else ([] if none else None)
+        # a theorem whose proof failed is recorded by Lean with `sorryAx`: judged per theorem
+        ok = ax is not None and set(ax) <= core.ALLOWED_AXIOMS
+        res.append({"name": n, "ok": ok, "axioms": ax,
+                    "detail": "translated table:" + table[:1800] + "\n" + (p.stdout or "")[-1500:] + (p.stderr or "")[-500:]})
+    return res
 
 
 def budget(tier: str) -> int:
@@ -274,10 +326,112 @@ def _churn_history(rng, d: dict, tag: str, maxlen: int):
     return objs, [seg1, churn, seg2, ["(sweep)"], seg3]
 
 
+def _ctor_history(rng, d: dict, tag: str, maxlen: int):
+    """instances created by ONE constructor call that assigns several managed fields at once
+    (`Person("p", works_for=acme, member_of=[club])`): `__init__` assigns the fields in declaration order, so the
+    inference triggered by an earlier field reaches later fields of the same instance before `__init__` has assigned
+    them. Returns (objs, before, [(late index, [(field, [values])…])…], after): assertions among the instances that
+    exist from the start, the constructor calls, assertions that may mention the new instances."""
+    objs = _world(rng, tag)
+    base = set(range(len(objs)))
+    ctorf = d["ctor_fields"]
+    by_cls: Dict[int, List[int]] = {}
+    for i, (c, _) in enumerate(objs):
+        by_cls.setdefault(c, []).append(i)
+    taken = {r for _, r in objs if r != "-"}
+    calls = []
+    usable = set(base)
+    for _ in range(rng.randint(1, 2)):
+        cands = []
+        for c in range(d["nclasses"]):
+            if not ctorf.get(c):
+                continue
+            if c in d["role_cls"]:
+                free = [o for o in by_cls.get(0, []) if o in base and (tag != "U" or o not in taken)]
+                if not free:
+                    continue
+            cands += [c] * (3 if len(ctorf[c]) >= 2 else 1)
+        if not cands:
+            break
+        c = rng.choice(cands)
+        rt = "-"
+        if c in d["role_cls"]:
+            rt = rng.choice([o for o in by_cls.get(0, []) if o in base and (tag != "U" or o not in taken)])
+            taken.add(rt)
+        o = len(objs)
+        objs = objs + [(c, rt)]
+        give_all = rng.random() < 0.5
+        vals = []
+        for f in ctorf[c]:
+            tgts = [t for tc in d["targets"][f] for t in by_cls.get(tc, []) if t in usable]
+            if f in d["ctor_unsafe"].get(c, []):
+                tgts = []    # value-equality class: see _pd.ctor_unsafe (observed AttributeError, not yet a finding)
+            xs: List[int] = []
+            if tgts and (give_all or rng.random() < 0.6):
+                k = d["kinds"][f]
+                # a set-valued field gets one element: the iteration order of a larger Python set is not reproducible
+                m = 1 if k in ("single", "set") else rng.randint(1, 3)
+                xs = [rng.choice(tgts) for _ in range(m)]
+            vals.append((f, xs))
+        if sum(1 for _, xs in vals if xs) < min(2, len(vals)):
+            # at least two fields in one call wherever the class has them
+            for j, (f, xs) in enumerate(vals):
+                tgts = [t for tc in d["targets"][f] for t in by_cls.get(tc, []) if t in usable]
+                if not xs and tgts and f not in d["ctor_unsafe"].get(c, []):
+                    vals[j] = (f, [rng.choice(tgts)])
+        calls.append((o, vals))
+        usable.add(o)
+        by_cls.setdefault(c, []).append(o)
+    if not calls:
+        return None
+    w = [f for f in range(len(d["fields"])) if d["kinds"][f] != "single"]
+    done = set()
+    na = tag == "H"
+    before = _ops(rng, d, objs, rng.randint(0, max(1, maxlen // 3)), w, base, done, na)
+    after = _ops(rng, d, objs, rng.randint(0, max(1, maxlen // 2)), w, usable, done, na)
+    return objs, before, calls, after
+
+
+def _ctor_op(o, vals) -> str:
+    return f"(ctor {o} " + " ".join("(" + " ".join(map(str, [f] + xs)) + ")" for f, xs in vals) + ")"
+
+
+def _plain_ops(d, o, vals) -> List[str]:
+    """the same relations stated by plain writes on an instance built without them"""
+    out = []
+    for f, xs in vals:
+        for x in xs:
+            out.append(f"(set {f} {o} {x})" if d["kinds"][f] == "single" else f"(add {f} {o} {x})")
+    return out
+
+
 def generate(rng, tier, n):
     import itertools
     cases: List[Case] = []
     maxlen = 8 if tier == "quick" else 12
+    for i in range(max(48, n // 5)):
+        tag = ("U", "D", "H", "U", "D", "F")[i % 6]
+        d = _desc(tag)
+        r = _ctor_history(rng, d, tag, maxlen)
+        if r is None:
+            continue
+        objs, before, calls, after = r
+        ops = before + [_ctor_op(o, vals) for o, vals in calls] + after
+        cases.append(Case(_line(d, objs, ops), ("schema-" + tag, "constructor-call"), "random"))
+        # the same relations, instances built bare and the relations stated afterwards in a random order
+        plain = [x for o, vals in calls for x in _plain_ops(d, o, vals)]
+        rng.shuffle(plain)
+        ops2 = before + [f"(new {o})" for o, _ in calls] + plain + after
+        cases.append(Case(_line(d, objs, ops2), ("schema-" + tag, "constructor-call", "stated-afterwards"), "random"))
+        # the constructor calls first, everything else after them in a random order
+        if all(r_ == "-" or r_ < min(o for o, _ in calls) for _, r_ in objs):
+            rest = before + after
+            rng.shuffle(rest)
+            ok_first = all(x < min(o for o, _ in calls) or any(x == o2 for o2, _ in calls[:k])
+                           for k, (o, vals) in enumerate(calls) for _, xs in vals for x in xs)
+            if ok_first:
+                ops3 = [_ctor_op(o, vals) for o, vals in calls] + rest
+                cases.append(Case(_line(d, objs, ops3), ("schema-" + tag, "constructor-call", "order-permuted"), "random"))
     for tag, objs, ops in _FIXED:
         for perm in itertools.permutations(ops):
             cases.append(Case(_line(_desc(tag), objs, list(perm)), ("schema-" + tag, "all-orders"), "exhaustive"))
@@ -373,18 +527,45 @@ def compare(impl: str, other: str) -> bool:
     return True
 
 
+def _top_items(body: str) -> List[str]:
+    """the top-level parenthesised items of a history"""
+    out, depth, start = [], 0, 0
+    for i, ch in enumerate(body):
+        if ch == "(":
+            if depth == 0:
+                start = i
+            depth += 1
+        elif ch == ")":
+            depth -= 1
+            if depth == 0:
+                out.append(body[start:i + 1])
+    return out
+
+
 def shrink(case: Case):
-    """drop one assertion at a time"""
+    """drop one assertion at a time (never the creation of an instance); empty one field of a constructor call"""
     m = re.search(r"\(ops (.*)\)\)$", case.line)
     if not m:
         return
-    body = m.group(1)
-    ops = re.findall(r"\([^()]*\)", body)
+    ops = _top_items(m.group(1))
     head = case.line[: m.start()]
     for i in range(len(ops)):
+        if ops[i].startswith(("(ctor", "(new", "(kill")):
+            continue
         rest = ops[:i] + ops[i + 1:]
         if rest:
             yield Case(f"{head}(ops {' '.join(rest)}))", case.tags, "shrink")
+    for i, op in enumerate(ops):
+        if not op.startswith("(ctor"):
+            continue
+        mm = re.match(r"\(ctor (\d+) (.*)\)$", op)
+        fs = _top_items(mm.group(2))
+        for j, fx in enumerate(fs):
+            toks = fx[1:-1].split()
+            if len(toks) > 1:
+                fs2 = fs[:j] + [f"({toks[0]})"] + fs[j + 1:]
+                op2 = f"(ctor {mm.group(1)} {' '.join(fs2)})"
+                yield Case(f"{head}(ops {' '.join(ops[:i] + [op2] + ops[i + 1:])}))", case.tags, "shrink")
 
 
 def revive(case: Case) -> Case:
